@@ -1,7 +1,7 @@
 #!/bin/bash
 # import_mutants.sh Cxx : copy agent-produced mutants into /verif/seeded and confirm them
 p=$1
-for m in /tmp/mut/$p/MUTANTS/m*; do
+for m in /tmp/mut/$p/MUTANTS/${2:-m*}; do
   [ -f $m/patch.diff ] || continue
   d=/verif/seeded/M-$p-$(basename $m)
   mkdir -p $d; cp $m/patch.diff $m/demo.py $d/
